@@ -140,6 +140,10 @@ func getAlignmentDims(f io.Reader) (int, int, error) {
 	for s.Scan() {
 		line := s.Text()
 
+		if len(line) == 0 {
+			continue
+		}
+
 		if string(line[0]) == ">" {
 			n++
 		}
@@ -263,6 +267,10 @@ func ReadAlignment(f io.Reader, chnl chan FastaRecord, cErr chan error, cdone ch
 	for s.Scan() {
 		line := s.Text()
 
+		if len(line) == 0 {
+			continue
+		}
+
 		if first {
 
 			if len(line) == 0 || string(line[0]) != ">" {
@@ -354,6 +362,10 @@ func ReadEncodeAlignment(f io.Reader, hardGaps bool, chnl chan EncodedFastaRecor
 
 	for s.Scan() {
 		line = s.Bytes()
+
+		if len(line) == 0 {
+			continue
+		}
 
 		if first {
 
@@ -459,6 +471,10 @@ func ReadEncodeScoreAlignment(f io.Reader, hardGaps bool, chnl chan EncodedFasta
 
 	for s.Scan() {
 		line = s.Bytes()
+
+		if len(line) == 0 {
+			continue
+		}
 
 		if first {
 
@@ -573,6 +589,10 @@ func ReadEncodeAlignmentToList(f io.Reader, hardGaps bool) ([]EncodedFastaRecord
 
 	for s.Scan() {
 		line = s.Bytes()
+
+		if len(line) == 0 {
+			continue
+		}
 
 		if first {
 
